@@ -38,6 +38,9 @@ SomeProgs == {ProgAddA, ProgAddB, ProgDropA, ProgRenAC, ProgMutate, ProgGrow, Pr
 \* three-step pipelines that also run over gRPC in the quick tier (step 2 is served by the v1beta1-only server): a step that sets the
 \* context, one that returns none, one that reads it (added after the seeded change C04-m9 - the fallback client carries the
 \* request's context over when the response has none - was only in reach of the thorough tier)
+\* the thorough tier's three-step pipelines: every program but flip (flip runs in every one- and two-step pipeline of both tiers; the
+\* three-step enumeration is kept at the size whose cost was measured - DESIGN 8.8b)
+Progs3All == AllProgs \ {ProgFlip}
 CtxProgs == {ProgAddA, ProgClear, ProgAddB}
 NoOps == {}
 
